@@ -78,6 +78,8 @@ type c17bVersion struct {
 }
 
 type c17bRead struct {
+	invoke   int
+	all      bool
 	op       kernel.Op
 	client   string
 	ret      int
@@ -154,6 +156,13 @@ func runC17b(t *testing.T, plan *kernel.Plan, keepLog bool) *kernel.Result {
 			time.Sleep(time.Second)
 		}
 		var reads []*c17bRead
+		type span struct {
+			from, to int
+			client   string
+			sym      bool
+			reset    bool
+		}
+		var writes []span
 		finished := make([]bool, nproc)
 		bodies := make([]func(int), nproc)
 		for p := 0; p < nproc; p++ {
@@ -243,9 +252,13 @@ func runC17b(t *testing.T, plan *kernel.Plan, keepLog bool) *kernel.Result {
 						w.Violate("C17", "shared-handle-call-succeeds", "v1/"+op.Kind, fmt.Sprintf("%s for %s: %v", op.Kind, client, err))
 					}
 					w.EndOp(proc, fmt.Sprintf("err=%v n=%d", err, len(held)))
+					switch op.Kind {
+					case c17bGenP, c17bGenS, c17bReset:
+						writes = append(writes, span{invoke, w.Res.Steps, client, op.Kind == c17bGenS, op.Kind == c17bReset})
+					}
 					settle()
 					if len(held) > 0 {
-						rd := &c17bRead{op: op, client: client, ret: w.Res.Steps, held: held, isPublic: isPub, sym: isSym}
+						rd := &c17bRead{invoke: invoke, all: op.Kind == c17bSyms || op.Kind == c17bPrivs, op: op, client: client, ret: w.Res.Steps, held: held, isPublic: isPub, sym: isSym}
 						for _, h := range held {
 							rd.vals = append(rd.vals, cp(h))
 						}
@@ -292,6 +305,41 @@ func runC17b(t *testing.T, plan *kernel.Plan, keepLog bool) *kernel.Result {
 				}
 				if !ok {
 					w.Violate("C17", "returned-key-is-a-generated-key", "v1/"+rd.op.Kind, fmt.Sprintf("%s for %s returned %x.. which is no key generated for that owner", rd.op.Kind, rd.client, v[:min(8, len(v))]))
+				}
+			}
+		}
+		// a key that one "all keys" read of the shared handle offered is still
+		// offered by every later one (nothing is destroyed in this workload),
+		// unless the cache was reset in between. Reads that overlap a rotation
+		// of the same key are not compared: they are not atomic with it.
+		overlaps := func(rd *c17bRead) bool {
+			for _, sp := range writes {
+				if !sp.reset && sp.client == rd.client && sp.sym == rd.sym && sp.from <= rd.ret && rd.invoke <= sp.to {
+					return true
+				}
+			}
+			return false
+		}
+		resetBetween := func(a, b *c17bRead) bool {
+			for _, sp := range writes {
+				if sp.reset && sp.to >= a.invoke && sp.from <= b.ret {
+					return true
+				}
+			}
+			return false
+		}
+		for i, later := range reads {
+			if !later.all || overlaps(later) {
+				continue
+			}
+			for _, earlier := range reads[:i] {
+				if !earlier.all || earlier.client != later.client || earlier.sym != later.sym || earlier.ret > later.invoke || overlaps(earlier) || resetBetween(earlier, later) {
+					continue
+				}
+				for _, v := range earlier.vals {
+					if !contains(later.vals, v) {
+						w.Violate("C17", "shared-handle-keeps-offering", "v1/"+later.op.Kind, fmt.Sprintf("%s for %s offered %x.. at step %d but not any more at step %d (no destruction, no cache reset in between)", later.op.Kind, later.client, v[:6], earlier.ret, later.ret))
+					}
 				}
 			}
 		}
